@@ -56,7 +56,15 @@ def gen_hard(rng, seq):
             cs.append(("EnforceChanges", kw(location=rloc(rng, n, strands=(0, 1)))))
         else:
             loc = rloc(rng, n, strands=(1, -1), mult=3, minlen=3)
-            cs.append(("AvoidRareCodons", kw(location=loc, min_frequency=rng.choice([0.1, 0.2, 0.3]), species="e_coli")))
+            if rng.random() < 0.5:
+                cs.append(("AvoidRareCodons", kw(location=loc, min_frequency=rng.choice([0.1, 0.2, 0.3]), species="e_coli")))
+            else:
+                # user table; the threshold sits exactly on one of its frequencies half of the time
+                from .specs import user_table, table_to_desc
+                tbl = user_table(rng)
+                freqs = sorted({f for aa, cf in tbl.items() if len(aa) == 1 for f in cf.values() if 0 < f < 0.5})
+                mf = rng.choice(freqs) if freqs and rng.random() < 0.5 else rng.choice([0.1, 0.15, 0.2])
+                cs.append(("AvoidRareCodons", kw(location=loc, min_frequency=mf, codon_usage_table=table_to_desc(tbl))))
     if rng.random() < 0.25 and n >= 5:
         # partial-overlap family: a multi-nucleotide choice of k alternatives (k = 2..6; 4 matters: it
         # is also the size of a free nucleotide) cut by the border of another restriction
@@ -162,7 +170,7 @@ def impl_case(case):
 
 
 def run_impl(case):
-    return core.safe_call(impl_case, case, limit=120)
+    return core.safe_call(impl_case, case, limit=45)
 
 
 def oracle(case, out):
